@@ -22,6 +22,10 @@ import (
 func ruleFramingSingleConsumer(c *chk.Ctx) {
 	n := 0
 	isFieldChan := func(v ssa.Value) bool {
+		if _, fv, isF := ir.FieldRead(v); isF && fv != nil {
+			_, isCh := fv.Type().Underlying().(*types.Chan)
+			return isCh
+		}
 		u, ok := v.(*ssa.UnOp)
 		if !ok || u.Op != token.MUL {
 			if f, isF := v.(*ssa.Field); isF {
@@ -37,6 +41,14 @@ func ruleFramingSingleConsumer(c *chk.Ctx) {
 	for _, f := range pkgFuncs(c, c.M.ChanPkg) {
 		root := ir.Root(f)
 		inRecv := ir.BaseName(root) == "Recv" && root.Signature.Recv() != nil
+		if !inRecv {
+			// a private helper reached only from Recv methods is part of them
+			for _, rm := range chanMethods(c, "Recv") {
+				if c.P.InExt(rm, root) {
+					inRecv = true
+				}
+			}
+		}
 		ir.Instrs(f, func(ins ssa.Instruction) {
 			switch x := ins.(type) {
 			case *ssa.Go:
@@ -175,6 +187,54 @@ func ruleGetterForwardsRawResult(c *chk.Ctx) {
 	n := 0
 	for _, g := range c.P.Ext(f) {
 		for _, sw := range statusWrites(c, g) {
+			if sphi, isPhi := sw.arg.(*ssa.Phi); isPhi {
+				// status and body chosen together on earlier branches, written at one shared
+				// point: on every edge that chooses 200 the body chosen is the raw result
+				var walk func(sp *ssa.Phi, bodies []*ssa.Phi, depth int)
+				walk = func(sp *ssa.Phi, bodies []*ssa.Phi, depth int) {
+					for i, e := range sp.Edges {
+						var inner []*ssa.Phi
+						var vals []ssa.Value
+						for _, bp := range bodies {
+							if i < len(bp.Edges) {
+								vals = append(vals, bp.Edges[i])
+								if ip, ok := bp.Edges[i].(*ssa.Phi); ok {
+									inner = append(inner, ip)
+								}
+							}
+						}
+						if ip, ok := e.(*ssa.Phi); ok && depth < 4 {
+							var same []*ssa.Phi
+							for _, bp := range inner {
+								if bp.Block() == ip.Block() {
+									same = append(same, bp)
+								}
+							}
+							walk(ip, same, depth+1)
+							continue
+						}
+						if k, isC := ir.ConstInt(e); !isC || k != 200 {
+							continue
+						}
+						n++
+						raw := false
+						for _, v := range vals {
+							if mi, isMI := ir.NormCell(v).(*ssa.MakeInterface); isMI && isByteSlice(mi.X.Type()) {
+								raw = true
+							}
+						}
+						c.Check(raw, "PROV.raw", g, "result forwarded as raw JSON", sw.ci.Pos(), "the body chosen with status 200 is the result's own bytes (json.RawMessage)", "the body written with 200 is not the call result's own bytes: a result decoded into Go values and encoded again loses number precision")
+					}
+				}
+				var bodies []*ssa.Phi
+				for _, a := range sw.ci.Common().Args {
+					if bp, ok := a.(*ssa.Phi); ok && bp != sphi && bp.Block() == sphi.Block() {
+						bodies = append(bodies, bp)
+					}
+				}
+				walk(sphi, bodies, 0)
+				continue
+			}
 			if !sw.isC || sw.code != 200 {
 				continue
 			}
@@ -408,6 +468,21 @@ func ruleResultOnlyWithoutError(c *chk.Ctx, d *dispatchModel) {
 			return false
 		}
 		good = errNil(c.P.CondsWithin(st, d.responses))
+		// the result may have been chosen into a local on earlier branches and be stored at a
+		// shared point: then every way that yields a result is on the err == nil edge
+		if _, isPhi := st.Val.(*ssa.Phi); isPhi && !good {
+			all, some := true, false
+			for _, w := range storedWays(c, st, d.responses) {
+				if ir.IsNilConst(w.val) {
+					continue
+				}
+				some = true
+				if !errNil(w.conds) {
+					all = false
+				}
+			}
+			good = all && some
+		}
 		// the value may be one result of a private outcome helper: then every return of the
 		// helper that yields a result (not the nil constant) is on its err == nil edge
 		if e, isE := st.Val.(*ssa.Extract); isE && !good {
